@@ -1,7 +1,7 @@
 (** C08 -- One SSO request, one outcome; rejected requests leave no trace.
     The handler model interprets the checker chain go2v extracts from sso.go ([Gen.Facts.sso_steps]); the theorems
     hold for every chain satisfying the decidable conditions [wf8] / [wf_order], which the extracted chain does. *)
-From Saml Require Import Base.Bytes Idp.FactTypes Gen.Facts Idp.Sso Proofs.SsoProofs.
+From Saml Require Import Base.Bytes Idp.FactTypes Gen.Facts Idp.Sso Idp.Deliver Proofs.SsoProofs.
 
 Section C08.
 Variable e_form : option form.
@@ -42,6 +42,25 @@ Proof. vm_compute. reflexivity. Qed.
 Example C08_unchecked_binding_rejected : wf8 (firstn 11 sso_steps ++ skipn 12 sso_steps) = false.
 Proof. vm_compute. reflexivity. Qed.
 
+(** no empty or concatenated reply: the model's reply functions are the ones the statement sequences of
+    sendBackResponse and of the end of ssoHandleFunc yield -- every path through sendBackResponse writes exactly one of
+    body / auto-submit form / redirect / error, and after a passing chain the handler either redirects to the login
+    page or sends one UnsupportedBinding reply *)
+Theorem C08_single_write : (forall e mt, exists k, deliver_shape sendBackResponse_seq e mt = Some k) /\
+  (forall entity_id status st,
+     deliver_shape sendBackResponse_seq (is_empty (r_acs st)) (label_is (r_binding st)) = Some (kind_of_reply (send_failed entity_id status st))).
+Proof. split; [exact deliver_writes_once|exact send_failed_from_source]. Qed.
+Theorem C08_terminal : forall entity_id st id, l_created st = Some id ->
+  terminal_shape sso_post (label_is (r_binding st)) =
+  Some (match terminal entity_id st with [RLogin _] => TkLogin | _ => TkUnsupported end) /\
+  (terminal entity_id st = [RLogin id] \/ terminal entity_id st = [send_failed entity_id c_StatusCodeUnsupportedBinding st]).
+Proof. exact terminal_from_source. Qed.
+Theorem C08_prechecks : precheck_ok sso_pre = true /\ precheck_ok attrquery_pre = true.
+Proof. exact prechecks_from_source. Qed.
+
 Print Assumptions C08_one_outcome.
 Print Assumptions C08_no_panic.
 Print Assumptions C08_current_tree.
+Print Assumptions C08_single_write.
+Print Assumptions C08_terminal.
+Print Assumptions C08_prechecks.
